@@ -1,1 +1,40 @@
-fn main() {}
+//! C08 — Rolling back to a checkpoint restores exactly that database.
+//!
+//! Parts:
+//!  * `rollback`   programs of relational / graph / vector statements through `QueryRouter::execute_parsed`
+//!                 with CHECKPOINT / ROLLBACK TO cycles (never more live checkpoints than the limit);
+//!                 metamorphic oracle: a fixed battery of reads answered at CHECKPOINT time must be
+//!                 answered identically after ROLLBACK TO; writes keep working and are readable.
+//!  * `retention`  the same interpreter, few writes, more checkpoints than the limit; every CHECKPOINT
+//!                 waits for a new wall-clock second so that "oldest" is decided by creation order.
+
+mod check;
+mod prog;
+mod world;
+
+use nv_engine::{main_for, PropDef, PropPart};
+
+fn main() {
+    // `init_blob` builds a tokio runtime per router (`Runtime::new()`, one worker thread per core by
+    // default); a router is built for every case, so keep the runtimes small. Checkpoint statements
+    // are driven synchronously through `block_on`, the worker count does not change what they do.
+    if std::env::var_os("TOKIO_WORKER_THREADS").is_none() {
+        std::env::set_var("TOKIO_WORKER_THREADS", "1");
+    }
+    main_for(PropDef {
+        id: "C08",
+        level: "exploration",
+        rule: "a program is non-trivial when it contains a rollback for which the read battery just before the rollback differs from the battery recorded at the target checkpoint in >= 2 of the 3 engines (relational, graph, vector), or when it performs a second rollback; distinct = distinct generated program (hash of its JSON)",
+        assumptions: vec![
+            "router built as in the router's own checkpoint tests: with_shared_store + init_blob + init_checkpoint_with_config{max_checkpoints 2..4, auto_checkpoint off, interactive_confirm off}; statements go through execute_parsed; the query cache is not initialised",
+            "creation times of checkpoints have one-second resolution in the product: part `rollback` never exceeds the retention limit, part `retention` puts every CHECKPOINT into its own wall-clock second (the harness sleeps), so the expected retention order never depends on timing",
+            "generated statements avoid the parser limitations recorded under C15 (negative literals, contextual keywords as column names)",
+            "similarity scores are compared with tolerance 1e-5, everything else exactly (rows, nodes, edges as multisets)",
+        ],
+        parts: vec![
+            PropPart::new("rollback", 400, 12_000, prog::rollback_strategy, check::run).shrink_iters(400).boxed(),
+            PropPart::new("retention", 48, 1_600, prog::retention_strategy, check::run).shrink_iters(60).boxed(),
+        ],
+        children: vec![],
+    });
+}
